@@ -1,6 +1,6 @@
 CONSTANTS NP = 3
   Names <- Names2
-  Hws <- Hws1
+  Hws <- Hws2
   Sts <- St2
   ProbeNames <- PNames
   ProbeHws <- PHws
